@@ -128,12 +128,28 @@ Proof.
   exact (Hs i j ti tj Hne Hi Hj).
 Qed.
 
-(* non-vacuity: the witness of C09_race_state_reachable is such a start and such a state *)
-Example known_race_instance :
-  tops_ok race_init /\ known_C09 (race_key SessClose SessClose FSessClosed) = true.
+(* DATA-RACE FREEDOM OF THE MODEL of the repaired library: the recorded class is empty, so from any start
+   that respects the pattern no reachable state has two threads about to make conflicting accesses. *)
+Theorem model_data_race_free : forall (l : list (op * list nat)) s,
+  tops_ok (init op template l) ->
+  reachable op template (init op template l) s ->
+  forall i j ti tj x w1 w2, i <> j ->
+    nth_error (threads op s) i = Some ti -> nth_error (threads op s) j = Some tj ->
+    LocksSound.next_access op ti = Some (x, w1) -> LocksSound.next_access op tj = Some (x, w2) ->
+    w1 || w2 = false.
 Proof.
-  split; [|vm_compute; reflexivity].
+  intros l s Ht Hr i j ti tj x w1 w2 Hne Hi Hj H1 H2.
+  destruct (w1 || w2) eqn:Hw; [exfalso|reflexivity].
+  pose proof (model_races_are_exactly_the_known_ones l s Ht Hr i j ti tj x w1 w2 Hne Hi Hj H1 H2 Hw) as Hk.
+  vm_compute in Hk. discriminate Hk.
+Qed.
+
+(* non-vacuity: a start that respects the pattern in which two threads do reach accesses of one location
+   (both reads: Capture's and IsCaptured's sections exclude each other, so it is one after the other) *)
+Definition free_init := init op template [(ParseFast, [1]); (Purge, [1]); (PrintTable, [1]); (SessClose, [1])].
+Example pattern_start : tops_ok free_init.
+Proof.
   intros i j ti tj Hne Hi Hj.
-  destruct i as [|[|[|i]]], j as [|[|[|j]]]; cbn in Hi, Hj; try discriminate; try congruence;
+  destruct i as [|[|[|[|[|i]]]]], j as [|[|[|[|[|j]]]]]; cbn in Hi, Hj; try discriminate; try congruence;
     inversion Hi; inversion Hj; subst; reflexivity.
 Qed.
